@@ -15,6 +15,7 @@ import Driver.Sim
 import Driver.Modes
 import Driver.Text
 import Driver.Pipe
+import Driver.Locale
 /-
 Line-protocol driver: one case per line, first token selects the engine, one reply line per case.
 Stateless across lines (a line is a complete case = a replay).  Core-only imports so that it links.
@@ -46,6 +47,7 @@ def dispatch (env : Env) (eng rest : String) : String :=
   | "sim" => Sim.run env rest
   | "modes" => Modes.run env rest
   | "text" => Text.run env rest
+  | "locale" => Locale.run rest
   | "pipe" => Pipe.run env rest
   | "pipetrace" => Pipe.runTrace env rest
   | _ => "bad-engine"
